@@ -2,7 +2,7 @@
 
 from __future__ import annotations
 
-from typing import Union
+from typing import List, Union
 
 from vf.cond import cond
 
@@ -92,16 +92,16 @@ for _i in range(len(CORPUS)):
     except Exception as _e:  # noqa: BLE001  extraction must never fail on a template that parses
         EXTRACTED.append(None)
 
-N = Union[int, str]
+N = Union[int, str, None, bool, List[int]]
 
 
 @cond(
-    pre=["not isinstance(n, str) or (len(n) == 1 and n in '0123')", "not isinstance(n, int) or -2 <= n <= 3"],
+    pre=["not isinstance(n, str) or (len(n) == 1 and n in '0123x.')", "isinstance(n, bool) or not isinstance(n, int) or -2 <= n <= 3", "not isinstance(n, list) or (len(n) <= 1 and all(0 <= k <= 1 for k in n))"],
     timeout=200,
     shard={"i": list(range(len(CORPUS)))},
     covers="every (family, context, singular, plural) looked up at run time for literal operands appears in extract_from_template() with the same family and the line of the originating tag/expression; extraction does not raise (empty and comment-only templates included); translator comments attach only to a message on the comment's own or next line",
-    bounds="16 templates: t/gettext/ngettext/pgettext/npgettext filters in output, assign, echo, ternary branches, if/for/unless/case/with/capture bodies, liquid tag lines, template strings; translate/plural blocks with count and context; count n: int -2..3 | 1-digit str (a nil/boolean count means 'no count': outside); branch condition x: bool",
-    grid=lambda: [(i, n, x) for i in range(len(CORPUS)) for n in (0, 1, 2, -1, "0", "2") for x in (False, True)],
+    bounds="16 templates: t/gettext/ngettext/pgettext/npgettext filters in output, assign, echo, ternary branches, if/for/unless/case/with/capture bodies, liquid tag lines, template strings; translate/plural blocks with count and context; count n: int -2..3 | 1-character str over {0 1 2 3 x .} (numeric and non-numeric) | nil | bool | list of <= 1 int; branch condition x: bool",
+    grid=lambda: [(i, n, x) for i in range(len(CORPUS)) for n in (0, 1, 2, -1, "0", "2", "x", ".", None, True, False, [], [1]) for x in (False, True)],
 )
 def d_cover(i: int, n: N, x: bool) -> bool:
     ext = EXTRACTED[i]
